@@ -444,7 +444,10 @@ namespace foonathan
             static void* allocate_array(allocator_type& state, std::size_t count, std::size_t size,
                                         std::size_t alignment)
             {
-                // node and array already checked
+                // node already checked, array only if a bigger reservation is needed:
+                // a request above max_array_size() must not succeed just because the arena grows in between
+                detail::check_allocation_size<bad_array_size>(
+                    count * size, [&] { return max_array_size(state); }, state.info());
                 detail::check_allocation_size<bad_alignment>(
                     alignment, [&] { return detail::alignment_for(size); }, state.info());
                 auto mem = state.allocate_array(count, size);
